@@ -3,6 +3,7 @@ import CogentModel.Model.Calculator
 import CogentModel.Model.Controller
 import CogentModel.Model.ControllerLf
 import CogentModel.Model.ParamRules
+import Driver.C07Rules2
 open CogentModel CogentModel.Calc
 
 /-- the integer hash-combine calc used by the correspondence harness:
@@ -190,6 +191,7 @@ def parseSimple (j : J) : Except String (Ctl.Simple Int) := do
 
 def handle (cmd : String) (j : J) : Except String J :=
   match cmd with
+  | "rules2" => handleRules2 j
   | "compile" => do
     let ops ← match optField j "block" with
       | .null => do pure (Ctl.compileLf (.simple (← parseSimple j)))
